@@ -573,5 +573,8 @@ func (s *Subscription) NextMsgWithContext(ctx context.Context) (*Msg, error) {
 		}
 		return nil, ErrBadSubscription
 	}
+	if ctx.Err() == nil {
+		panic(fmt.Sprintf("nats(sim): NextMsg woke without a message, a close or a deadline (sub %s)", s.Subject))
+	}
 	return nil, ctx.Err()
 }
